@@ -11,9 +11,9 @@ causes = {
  'C02': 'operator result stored in an interface variable (`e = -x`, `e = x % y`, shifts, `!b`); shift by negative signed variable; `++/--` on uintptr',
  'C03': 'iota advanced per name in `n, m = iota, …`; typed overflow / truncation accepted; >64-bit operands rejected; rune default type lost; host panics on `a cmp (b op c)`',
  'C04': 'composite literal assigned to a struct variable replaces its storage (aliases lost: 140 of the keys are minimal histories of this one cause); parallel struct literals; append onto own prefix; method values bound late; method expression in a variable',
- 'C05': 'assertion / type switch to script-defined interfaces ignores receiver kind, promotion and (when shadowed) signatures; method expressions through embedding; embedded interface fields; Stringer / error / Writer wrapping priorities',
+ 'C05': 'assertion / type switch to script-defined interfaces ignores receiver kind, promotion and (when shadowed) signatures; promotion resolved depth-first instead of shallowest-first; method expressions through embedding; embedded interface fields; Stringer / error / Writer wrapping priorities',
  'C06': 'recover() value type; Panic.Value is a reflect.Value; deferred call arguments evaluated late; late-bound method values; re-panic skips remaining defers',
- 'C07': '—',
+ 'C07': 'a declared script function returned by a script call and passed directly to a host function reaches the host as the interpreter node',
  'C08': '`go wk.run()` reads its receiver late; send operand of a select case partly evaluated; receive into a captured variable lost',
  'C09': '`ExecuteWithContext` after `Compile`: goroutine channel operations not cancellable',
  'C10': 'closures in variables and host wrappers dead after any cancel until the next Eval',
